@@ -22,8 +22,12 @@ from harness import c06, c15
 
 ID = 'C14'
 T = es.T
-ACTIONS = ['parse', 'execute', 'register_function', 'register_prefix', 'register_infix', 'register_postfix', 'lock_ctx']
+ACTIONS = ['parse', 'execute', 'register_function', 'register_prefix', 'register_infix', 'register_postfix', 'lock_ctx', 'execute_self']
+# execute_self: the handler evaluates a program that invokes the same handler again (two levels deep)
+SELF_PROGRAMS = {'gf': 'gf(1)', '+++': '+++ 1', '---': '1 ---', 'hi': '1 hi 2'}
 SEVEN = api.V_num(7, 0)
+# what a re-entering handler parses / evaluates: goes through the function, prefix, infix and postfix registries
+REENTRANT_PROGRAM = 'max(1,-2)+3++'
 
 
 def templates(tier):
@@ -40,6 +44,19 @@ def templates(tier):
     add('infix', '1 hi 2', {})
     add('nested', 'f1 ( g1 , +++ gf ( 1 hi 2 ) --- )', {'f1': 1, 'g1': 1})
     add('assign', 'x = g1 ; y = f1 ( ) ; x + y', {'f1': 1, 'g1': 1})
+    # the same handler resolved twice in a row (memoised look-ups), directly and nested
+    add('global-fn-twice', 'gf ( 1 ) + gf ( 2 )', {})
+    add('global-fn-nested', 'gf ( gf ( 1 ) )', {})
+    add('ctx-call-twice', 'f1 ( ) + f1 ( )', {'f1': 1})
+    add('ctx-bare-twice', 'g1 + g1', {'g1': 1})
+    add('prefix-twice', '+++ +++ 1', {})
+    add('postfix-twice', '( 1 --- ) ---', {})
+    add('infix-twice', '1 hi 2 hi 3', {})
+    # assignment whose target is bound to a re-entering context function
+    add('assign-target-fn', 'g1 = 2 ; g1', {'g1': 1})
+    add('compound-target-fn', 'g1 += 10 ; g1', {'g1': 1})
+    add('assign-chain-target-fn', 'x = g1 += 1 ; x', {'g1': 1})
+    add('setter-op', 'g1 becomes 1 ; g1', {'g1': 1})
     return out
 
 
@@ -50,12 +67,12 @@ def prepare(it):
 def make_reenter(action, depth2):
     def act(it_, ctx_cell, name):
         if action == 'parse':
-            r = it_.call('parse_expression', [mkstr('1+2')])
+            r = it_.call('parse_expression', [mkstr(REENTRANT_PROGRAM)])
             if r.name != 'Ok':
                 raise ModelError('re-entrant parse failed')
         elif action == 'execute':
             c = api.new_context(it_)
-            r = it_.call('execute', [mkstr('1+2' if not depth2 else 'gf(1)'), c.v]) if not depth2 else it_.call('execute', [mkstr('1+2'), c.v])
+            r = it_.call('execute', [mkstr(REENTRANT_PROGRAM), c.v])
             if r.name != 'Ok':
                 raise ModelError('re-entrant execute failed')
         elif action == 'register_function':
@@ -67,6 +84,16 @@ def make_reenter(action, depth2):
         elif action == 'register_infix':
             it_.call('register_infix_op', [mkstr('reent_' + name), 100, Enum('InfixOpType', 0, 'CALC'), Enum('InfixOpAssociativity', 0, 'LEFT'),
                                            ArcV(Cell(PyFn(lambda i, a: Ok(api.V_num(1, 0)), 'k'), 'h'))])
+        elif action == 'execute_self':
+            if es.NESTED['d'] < 2:
+                es.NESTED['d'] += 1
+                try:
+                    c = api.new_context(it_)
+                    r = it_.call('execute', [mkstr(SELF_PROGRAMS.get(name, REENTRANT_PROGRAM)), c.v])
+                finally:
+                    es.NESTED['d'] -= 1
+                if r.name != 'Ok':
+                    raise ModelError('re-entrant execute of the same handler failed')
         elif action == 'lock_ctx':
             arc = ctx_cell.v.f[0]
             g = models.mutex_lock(it_, [Ref(arc.cell, ())], 'std::sync::Mutex::<..>::lock')
@@ -112,6 +139,7 @@ def scenario(text, witness):
              {'op': 'register_prefix', 'name': b'+++'.hex(), 'handler': h('+++')},
              {'op': 'register_postfix', 'name': b'---'.hex(), 'handler': h('---')},
              {'op': 'register_infix', 'name': b'hi'.hex(), 'prec': es.HI_PREC, 'type': 'CALC', 'assoc': 'LEFT', 'handler': h('hi')},
+             {'op': 'register_infix', 'name': b'becomes'.hex(), 'prec': es.BECOMES_PREC, 'type': 'SETTER', 'assoc': 'RIGHT', 'handler': h('becomes')},
              {'op': 'ctx_new', 'ctx': 'c'}]
     for n in witness['funcs']:
         steps.append({'op': 'ctx_set_func', 'ctx': 'c', 'name': n.encode().hex(), 'handler': h(n)})
@@ -138,6 +166,7 @@ def concrete_reference(text, witness):
     ev.prefix_extra['+++'] = wrap('+++', True)
     ev.postfix_extra['---'] = wrap('---', True)
     ev.infix_handlers['hi'] = wrap('hi', True)
+    ev.infix_handlers['becomes'] = wrap('becomes', True)
     try:
         v = ev.eval(rf.ref_parse(toks, infix, prefix=rf.BUILTIN_PREFIX + ('+++',), postfix=rf.BUILTIN_POSTFIX + ('---',)), env)
         return 'ok', render.value_json(v, opsem._EmptyModel()), env.log
